@@ -280,7 +280,10 @@ def evaluate(prop, cases, impl, model, spec):
         if verdict.startswith('FAIL'):
             parts = verdict.split(':', 2)
             r = ('violation', parts[1] if len(parts) > 1 else 'fail', parts[2] if len(parts) > 2 else '')
-        elif sobs != '-' and sobs != iobs:
+        elif sobs != '-' and 'spec_project' in prop and prop['spec_project'](c, iobs) is None:
+            if mobs != '-' and mobs != iobs:
+                r = ('mismatch', 'impl differs from the model')
+        elif sobs != '-' and sobs != (prop['spec_project'](c, iobs) if 'spec_project' in prop else iobs):
             kind = prop['classify'](c, iobs, mobs, sobs) if 'classify' in prop else 'spec-mismatch'
             r = ('violation', kind, 'impl differs from the specification')
         elif mobs != '-' and mobs != iobs:
@@ -418,6 +421,12 @@ def _run_check(prop, tier, seed, replay, info, work, t0):
                 violations.append((v.get('case', ''), v.get('kind', 'extra'), v.get('detail', ''), '', '', '', v.get('domain', 'extra')))
         evaluations += extra.get('evaluations', 0)
 
+    if os.environ.get('VERIF_DEBUG'):
+        with open(os.path.join(BUILD, 'debug_%s.txt' % pid), 'w') as f:
+            for v in violations:
+                f.write('VIOL %s | %s\n  I %s\n  M %s\n  S %s\n' % (v[1], v[0], v[3], v[4], v[5]))
+            for m in mismatches:
+                f.write('MISM | %s\n  I %s\n  M %s\n  S %s\n' % (m[0], m[2], m[3], m[4]))
     rc = 0
     os.makedirs(os.path.join(ROOT, 'replays'), exist_ok=True)
     for kind, (c, detail) in sorted(known_hits.items()):
